@@ -406,17 +406,22 @@ both('t_macs_core', MCS,
 # the name spaces of the macro's fresh identifiers are disjoint: hygiene of in-program macros / repeated variables / ?pattern arguments
 MACF = ['macro m1($r: ident) { $r(x) }',
         'macro m2($a: expr) { edge($a, arg_pattern), k(arg_pattern) }',
-        'macro m3($a: expr) { p($a, x), p(x, x) }']
+        'macro m3($a: expr) { p($a, x), p(x, x) }',
+        'macro gp($p: expr, $g: ident) { edge($p, p), edge(p, $g) }']
 both('t_macf_sugar', MCS, [], body=['pub struct P;'] + [d + ';' for d in MCS] + MACF + [
      'a(x) <-- b(x, x), m1!(k);',
      'a(y) <-- pt(y, ?Pt { t, u }), m2!(*t + *u);',
      'a(x) <-- b(x, x), m3!(x);',
-     'a(x) <-- b(x, x), m1!(k), m1!(a);'], pre=PT_PRE, tags=['twin'], twin=('t_macf_core', 'L'))
+     'a(x) <-- b(x, x), m1!(k), m1!(a);',
+     'b(x, z) <-- k(x), gp!(x, y), gp!(y, z);',
+     'b(p, z) <-- k(p), gp!(p, z);'], pre=PT_PRE, tags=['twin'], twin=('t_macf_core', 'L'))
 both('t_macf_core', MCS,
      ['a(x) <-- b(x, x), k(x1)',
       'a(y) <-- pt(y, ?Pt { t, u }), edge((*t + *u), ap1), k(ap1)',
       'a(x) <-- b(x, x), p(x, x1), p(x1, x1)',
-      'a(x) <-- b(x, x), k(x1), a(x2)'], pre=PT_PRE, tags=['twin'])
+      'a(x) <-- b(x, x), k(x1), a(x2)',
+      'b(x, z) <-- k(x), edge(x, p1), edge(p1, y), edge(y, p2), edge(p2, z)',
+      'b(p, z) <-- k(p), edge(p, p1), edge(p1, z)'], pre=PT_PRE, tags=['twin'])
 # `expr` parameters stand for one operand
 MACX = ['macro sq($x: expr, $r: ident) { let $r = $x.pow(2) }',
         'macro dbl($x: expr, $r: ident) { let $r = $x * 2 }',
